@@ -880,9 +880,9 @@ class Rare(Gen):
         r = self.rng
         params = []
         q = r.random()
-        if q < 0.12:
+        if q < 0.2:
             kids = []
-        elif q < 0.24:
+        elif q < 0.3:
             kids = [self.text()] if r.random() < 0.6 else [['x', self.svar()]]
             if kids[0][0] == 'x':
                 params.append('p1')
@@ -890,7 +890,7 @@ class Rare(Gen):
             kids = self.inline(2, True, params)
             kids = self.edges(kids, must=False)
         k = r.random()
-        if k < 0.12 and params:
+        if k < 0.25 and params:
             params = params[:-1]                          # more expressions than parameters
         elif k < 0.2:
             params = params + ['extra']
@@ -983,7 +983,9 @@ class Rare(Gen):
 
 
 def gen_rare_case(rng):
-    return Rare(rng, (), nofrag=rng.random() < 0.5).case()
+    # `attrws`: included attribute values with white space at their edges (finding C19-attr-space
+    # keeps them away from the oracle; model and code must still agree on them)
+    return Rare(rng, ('attrws',) if rng.random() < 0.5 else (), nofrag=rng.random() < 0.5).case()
 
 
 def gen_case(rng, hazards=(), depth=2, nofrag=False):
